@@ -568,8 +568,12 @@ def parseChunk(raw):  # reading transfer encoded raw
         (yield None)
 
     size, sep, exts = line.partition(b';')
+    size = size.strip()
+    if not size or size.strip(b'0123456789abcdefABCDEF'):  # chunk-size = 1*HEX
+        # int(x, 16) would also accept sign, 0x prefix and underscores
+        raise ValueError("Invalid chunk size '{0}'".format(size.decode('iso-8859-1')))
     try:
-        size = int(size.strip().decode('ascii'), 16)
+        size = int(size.decode('ascii'), 16)
     except ValueError:  # bad size
         raise
 
